@@ -255,3 +255,16 @@ for _pid, _extra in {
     "C18": "The port field in all spellings of the numeric-field alphabet.",
 }.items():
     _ext(_pid, _extra)
+
+# alphabets of wave n (diagnostic code evaluated on every path)
+for _pid, _extra in {
+    "C07": "The incremental search also with fire_cont_frame / skip_utf8_validation / both.",
+    "C08": "Server events for a stream that ends in the middle of a frame (inside the header, a 16- / 64-bit length field, the payload).",
+    "C10": "The cookie option on connections for whose host the jar already holds cookies (6 Set-Cookie forms x 3 option values x 3 entry points).",
+    "C11": "None-valued sslopt keys (cert_reqs, check_hostname, server_hostname, CA options, all of them, unrelated keys): verified as if absent, or refused.",
+    "C13": "15 kinds of exception raised by a callback (TypeError, OSError with errno, KeyError(int), tuple / no / bytes / non-ASCII arguments, UnicodeDecodeError, StopIteration, the library's own classes) from each of 5 callbacks.",
+    "C14": "Server close frames with every status a server may send (1000-1003, 1007-1014, 3000, 3999, 4000, 4998), bare and with a reason; a 123-byte reason.",
+    "C15": "Terminal server close with 15 statuses x with / without reason x after 0 / 1 lost connection x both dispatchers.",
+    "C19": "Metamorphic: 22 no_proxy entries of no documented form inserted before / after 8 base lists must not change the decision (10 hosts, option and environment).",
+}.items():
+    _ext(_pid, _extra)
